@@ -167,6 +167,25 @@ let () =
           (match sdec schema lim64 fuel ty r0 with
            | Ok (v, r) -> Printf.sprintf "ok %s | consumed=%d err=%d" (value_to_s_t ty v) (total - List.length r.bs.data) (if r.err then 1 else 0)
            | Err -> "err" | Panic x -> "panic " ^ site_s x | Excess x -> "excess " ^ site_s x | OutOfFuel -> "fuel")
+        | "SSEQ" ->
+          (* SSEQ id,id,.. sched hex : records decoded back to back from ONE reader; position after each *)
+          let ids = List.map int_of_string (String.split_on_char ',' (next t)) in
+          let sch = next t in
+          let bs = bytes_of_hex (next t) in
+          let sched = if sch = "-" then [] else List.map (fun x -> nat_of_int (int_of_string x)) (String.split_on_char ',' sch) in
+          let total = List.length bs in
+          let fuel = nat_of_int (total + 80) in
+          let r = ref { bs = { data = bs; sched = sched }; limits = []; err = false } in
+          let outs = List.map (fun id ->
+              let ty = TRef (n_of_int id) in
+              match sdec schema lim64 fuel ty !r with
+              | Ok (v, r') ->
+                let res = if r'.err then Printf.sprintf "err @%d" (total - List.length r'.bs.data)
+                  else Printf.sprintf "ok %s @%d" (value_to_s_t ty v) (total - List.length r'.bs.data) in
+                (* every DecodeBebop call makes its own ErrorReader: the latch does not survive the call *)
+                r := { r' with err = false; limits = [] }; res
+              | Err -> "err" | Panic x -> "panic " ^ site_s x | Excess x -> "excess " ^ site_s x | OutOfFuel -> "fuel") ids in
+          String.concat " ; " outs
         | x -> "? " ^ x
       with Stack_overflow -> "model-stack-overflow" | Failure m -> "model-failure " ^ m | Invalid_argument m -> "model-invalid " ^ m
     in
